@@ -271,7 +271,9 @@ def xml_record(r, fl, voc):
         if au[0] == "prov#" and au[1] in REF:
             out.append('<%s prov:ref="%s"/>' % (tag, qname(a["v"]["u"])))
         elif au[0] == "prov#" and au[1] in TIME:
-            out.append("<%s>%s</%s>" % (tag, voc.value("dt", a["v"]["v"]).isoformat(), tag))
+            # the schema types these elements xsd:dateTime; saying so explicitly is redundant but valid
+            ty = ' xsi:type="xsd:dateTime"' if fl.get("timetype") else ""
+            out.append("<%s%s>%s</%s>" % (tag, ty, voc.value("dt", a["v"]["v"]).isoformat(), tag))
         elif au == ["prov#", "label"] and a["v"]["t"] == "str":
             out.append("<%s>%s</%s>" % (tag, sx.escape(voc.value("str", a["v"]["v"])), tag))
         else:
